@@ -2,13 +2,13 @@
 # verifyseed.sh <pid> <A|B|C|D> "<demo command>" — in the sub-agent's scratch worktree: the change applies, builds,
 # the pinned suite passes with it, the demonstration fails with it and passes without it. (C, D = second wave, SEED2/)
 PID=$1; X=$2; DEMO=$3; WT=/tmp/seed/$PID
-case $X in A|B) SD=SEED;; C|D) SD=SEED2;; E|F) SD=SEED3;; G|H) SD=SEED4;; *) SD=SEED5;; esac
+case $X in A|B) SD=SEED;; C|D) SD=SEED2;; E|F) SD=SEED3;; G|H) SD=SEED4;; I|J) SD=SEED5;; *) SD=SEED6;; esac
 export GOFLAGS=-mod=mod GOPROXY=off GOSUMDB=off GOTOOLCHAIN=local
 cd $WT || exit 3
-git checkout -q -- . ; git clean -fdq -e SEED -e SEED2 -e SEED3 -e SEED4 -e SEED5
+git checkout -q -- . ; git clean -fdq -e SEED -e SEED2 -e SEED3 -e SEED4 -e SEED5 -e SEED6
 echo "== demo WITHOUT change"; (set -o pipefail; eval "$DEMO") > /tmp/w2logs/$PID.$X.without.log 2>&1; echo "rc=$?"; tail -3 /tmp/w2logs/$PID.$X.without.log
 git apply $SD/$X.diff || { echo "does not apply"; exit 1; }
 echo "== build"; go build ./... && echo ok
 echo "== suite with change"; /verif/baseline.sh $WT | tail -3
 echo "== demo WITH change"; (set -o pipefail; eval "$DEMO") > /tmp/w2logs/$PID.$X.with.log 2>&1; echo "rc=$?"; tail -5 /tmp/w2logs/$PID.$X.with.log
-git checkout -q -- . ; git clean -fdq -e SEED -e SEED2 -e SEED3 -e SEED4 -e SEED5; git status --short | grep -v SEED | head -3
+git checkout -q -- . ; git clean -fdq -e SEED -e SEED2 -e SEED3 -e SEED4 -e SEED5 -e SEED6; git status --short | grep -v SEED | head -3
